@@ -101,8 +101,12 @@ func RunOrder(p *Plan, o ExecOpts) (*ExecOut, error) {
 		return nil, err
 	}
 	defer os.RemoveAll(tmp)
-	mcDir := filepath.Join(o.Root, "mc")
-	binDir := filepath.Join(o.Root, "bin")
+	src := o.SrcRoot
+	if src == "" {
+		src = o.Root
+	}
+	mcDir := filepath.Join(src, "mc")
+	binDir := filepath.Join(src, "bin")
 	run := func(dir string, name string, args ...string) (string, error) {
 		c := exec.Command(name, args...)
 		c.Dir = dir
